@@ -12,7 +12,7 @@ BASES = [0, (1 << 32) - 6, (1 << 63) - 6, (1 << 64) - 14]
 
 
 def job_covdrv(args):
-    exe = os.path.join(common.VERIF, "build", "asan", "drv", "covdrv")
+    exe = os.path.join(common.VERIF, "build", common.VARIANT, "drv", "covdrv")
     env = dict(os.environ); env.update(common.ASAN_ENV)
     p = subprocess.run([exe] + [str(a) for a in args], stdout=subprocess.PIPE, stderr=subprocess.PIPE, env=env, timeout=3000)
     if p.returncode != 0:
